@@ -22,6 +22,10 @@ CHECKS = {
    technique="TLA+ spec Router.tla/RouterApp.tla: TLC checks that the fang lists of the finalised tree equal the applications covering each path (scope and onion order) for every registration order; TLC-built application trees with instrumented fangs are run on the real router and the enter/leave log of every request is judged against OnionTrace by Trace_Router.tla",
    text="TLC proves within the bounds that with the inherit+guarded-merge compression every path is wrapped by exactly the fangs of the applications whose mount prefix covers it, outermost first, and shows the counterexample for the original merge rule. Application trees emitted by TLC (exhaustive 2 applications, simulated 3 applications with up to 2 fangs each, local fangs, param/static mount prefixes, one early-answering fang) and random ones are assembled on the real code with logging fangs; for every request (hits, misses inside/outside each mount, near misses of the prefix, unregistered methods) the log must equal the onion trace computed in TLA+.",
    note="side condition of the property enforced by the generators (exclusive mount prefixes, no static sibling of a param prefix segment); fang tuples up to arity 4, local tuples up to 2; trusted: TraceFang in harness/src/router.rs"),
+ "C02": dict(level=MC, design="§4 C02",
+   technique="TLA+ spec HttpParse.tla: the supported request grammar as a machine (one action per grammar token, 30 fault actions); every complete behaviour is a request whose meaning Denotes() and whose allowed treatment ObsOK() are TLA+ operators; behaviours enumerated by TLC (exhaustive per family + -simulate) and seeded random requests are concretised and presented as the first read of a connection to the real Request::read; Trace_HttpParse.tla judges every observation",
+   text="TLC enumerates the grammar machine: header lines in four letter cases with repeated names and long values, every method x target x query shape, bodies of four sizes around the 1 KiB buffer x NUL first byte x NUL inside x Content-Length spelling, and every fault action (truncation at seven places, bad versions, missing separators, non-numeric/overflowing/empty Content-Length, NUL and non-UTF-8 bytes in target and values, unknown methods, non-origin-form targets, over-long lines) on three base requests. The real parser is run on the concrete bytes; for well-formed requests every public accessor (method, path.str(), query.iter(), typed header accessors, headers.get in two spellings, payload(), Debug) must return what the request denotes, without accessor panics and without waiting for input that had arrived; malformed bytes must be answered >= 400 or by closing.",
+   note="only clearly malformed inputs generated; bare LF may be accepted or refused; error status free; first read only (segmentation is C06); trusted: concretisation table / fault applier / reverse table in harness/src/parse.rs, ScriptedReader"),
 }
 
 # entries proposed in notes/Cnn.md (written by the builders of those checks) are picked up unless overridden above
